@@ -8,7 +8,7 @@ from vlib.util import VERIF, REPO
 ASSUMPTIONS = ['"observable trace" = what process bodies and probe callbacks see (env.now, values, exceptions, order)',
                'hash-seed independence is sampled (fresh interpreters with several PYTHONHASHSEED values), not a theorem',
                'run(until=event) for an event that fails re-raises its exception after all of its waiters have run (repaired in /repo)']
-SPEC = [(3, 'plan:time'), (3, 'plan:outcome'), (2, 'plan:cond'), (2, 'plan:intr'), (2, 'plan:res'), (2, 'plan:store'), (1, 'untilfail'), (1, 'untilreact')]
+SPEC = [(3, 'plan:time'), (3, 'plan:outcome'), (2, 'plan:cond'), (2, 'plan:intr'), (2, 'plan:res'), (2, 'plan:store'), (1, 'untilfail'), (1, 'untilreact'), (2, 'crashplan')]
 
 CHILD = r'''
 import sys, json, hashlib
@@ -41,7 +41,7 @@ def run(ctx):
                 res['oracle_failures'] += [f] if f else []
                 return res
             return net_part(ctx, res, [0, 4242])
-    res = kprops.run_kernel(ctx, 'C03', SPEC, 1200, 30000, oracles=[kprops.oracle_split, koracle.oracle_until_event_return], attribute=kprops.split_is_the_cause)
+    res = kprops.run_kernel(ctx, 'C03', SPEC, 1200, 30000, oracles=[kprops.oracle_split, koracle.oracle_until_event_return, koracle.oracle_driven_run_order], attribute=kprops.split_is_the_cause)
     # reproducibility: same program, same and other interpreter processes, several hash seeds
     rng = random.Random(f'C03-hash-{ctx.seed}')
     cases = kprops.gen_cases(rng, SPEC + [(2, 'res'), (2, 'store'), (2, 'cond')], 150 if ctx.quick else 1500)
